@@ -8,6 +8,7 @@ set_option linter.unreachableTactic false
 set_option linter.unnecessarySeqFocus false
 set_option linter.unusedVariables false
 set_option linter.unusedSimpArgs false
+set_option linter.unusedSectionVars false
 namespace RV.Kepler
 open RV RV.Gen.C03
 variable {K : Type} [Field K]
@@ -250,4 +251,156 @@ theorem invariants_eq (M r0 : K) (p : P6 K) :
 
 end vec
 
+/-! ### stumpff_cs (six functions) -/
+section six
+
+/-- relations between the functions c1..c5 carried by stumpff_cs at argument `s.z` -/
+structure Stumpff6Rel (s : Cs5 K) : Prop where
+  h1 : s.c1 = 1 - s.z * s.c3
+  h2 : s.c2 = 1 / 2 - s.z * s.c4
+  h3 : s.c3 = 1 / 6 - s.z * s.c5
+  hq : s.c1 ^ 2 = (1 + (1 - s.z * s.c2)) * s.c2
+
+/-- the first four functions, with `c0 = 1 - z c2` as in the last line of stumpff_cs -/
+def cs5To3 (s : Cs5 K) : Cs3 K := { c0 := 1 - s.z * s.c2, c1 := s.c1, c2 := s.c2, c3 := s.c3 }
+
+theorem cs5To3_rel {s : Cs5 K} (h : Stumpff6Rel s) : StumpffRel s.z (cs5To3 s) :=
+  ⟨rfl, h.h1, h.hq⟩
+
+theorem cs6DupStep_z (s : Cs5 K) : (cs6DupStep s).z = 4 * s.z := by
+  simp only [cs6DupStep, sc_hmul, n4_eq]; ring
+
+
+/-- the new values in terms of the old ones (textbook duplication formulas) -/
+theorem cs6DupStep_vals {s : Cs5 K} (h : Stumpff6Rel s) :
+    (cs6DupStep s).c2 = s.c1 ^ 2 / 2 ∧
+    (cs6DupStep s).c3 = (s.c2 + (1 - s.z * s.c2) * s.c3) / 4 ∧
+    (cs6DupStep s).c1 = (1 - s.z * s.c2) * s.c1 ∧
+    1 - (cs6DupStep s).z * (cs6DupStep s).c2 = 2 * (1 - s.z * s.c2) ^ 2 - 1 := by
+  obtain ⟨h1, h2, h3, hq⟩ := h
+  have e2 : (cs6DupStep s).c2 = s.c1 ^ 2 / 2 := by
+    simp only [cs6DupStep, sc_hadd, sc_hsub, sc_hmul, sc_one, half_eq, n4_eq, eighth_eq]
+    linear_combination (-(1 + s.c1) / 2) * h1
+  have e3 : (cs6DupStep s).c3 = (s.c2 + (1 - s.z * s.c2) * s.c3) / 4 := by
+    simp only [cs6DupStep, sc_hadd, sc_hsub, sc_hmul, sc_one, lit_eq, n4_eq, sixteenth_eq]
+    linear_combination (-1 / 4) * h3 + (-1 / 4) * h2
+  have e1 : (cs6DupStep s).c1 = (1 - s.z * s.c2) * s.c1 := by
+    have : (cs6DupStep s).c1 = 1 - (cs6DupStep s).z * (cs6DupStep s).c3 := by
+      simp only [cs6DupStep, sc_hadd, sc_hsub, sc_hmul, sc_one]
+    rw [this, e3, cs6DupStep_z]
+    linear_combination (-(1 - s.z * s.c2)) * h1
+  refine ⟨e2, e3, e1, ?_⟩
+  rw [e2, cs6DupStep_z]
+  linear_combination (-2 * s.z) * hq
+
+theorem cs6DupStep_rel {s : Cs5 K} (h : Stumpff6Rel s) : Stumpff6Rel (cs6DupStep s) := by
+  obtain ⟨e2, e3, e1, e0⟩ := cs6DupStep_vals h
+  obtain ⟨h1, h2, h3, hq⟩ := h
+  refine ⟨?_, ?_, ?_, ?_⟩
+  · simp only [cs6DupStep, sc_hadd, sc_hsub, sc_hmul, sc_one]
+  · simp only [cs6DupStep, sc_hadd, sc_hsub, sc_hmul, sc_one, half_eq]
+  · simp only [cs6DupStep, sc_hadd, sc_hsub, sc_hmul, sc_one, lit_eq]; norm_num
+  · rw [e0, e1, e2]
+    ring
+
+theorem cs6DupStep_cs3 {s : Cs5 K} (h : Stumpff6Rel s) :
+    cs5To3 (cs6DupStep s) = cs3DupStep (cs5To3 s) := by
+  obtain ⟨e2, e3, e1, e0⟩ := cs6DupStep_vals h
+  simp only [cs5To3, cs3DupStep, sc_hadd, sc_hsub, sc_hmul, sc_one, half_eq, n2_eq, quarter_eq, Cs3.mk.injEq]
+  refine ⟨?_, ?_, ?_, ?_⟩
+  · rw [e0]; ring
+  · rw [e1]
+  · rw [e2]; ring
+  · rw [e3]; ring
+end six
+
+/-! ### mass parameter -/
+section mass
+omit [CharZero K]
+
+theorem jacobiEtas_length (eta : K) (nact : Nat) (ms : List K) :
+    (jacobiEtas eta nact ms).length = ms.length := by
+  induction ms generalizing eta nact with
+  | nil => cases nact <;> simp [jacobiEtas]
+  | cons m r ih => cases nact <;> simp [jacobiEtas, ih]
+
+theorem jacobiEtas_get (eta : K) (nact : Nat) (ms : List K) (i : Nat) (h : i < ms.length) :
+    (jacobiEtas eta nact ms)[i]? = some (eta + (ms.take (min (i + 1) nact)).sum) := by
+  induction ms generalizing eta nact i with
+  | nil => simp at h
+  | cons m r ih =>
+    cases nact with
+    | zero =>
+      cases i with
+      | zero => simp [jacobiEtas]
+      | succ i =>
+        have := ih eta 0 i (by simpa using h)
+        simpa [jacobiEtas] using this
+    | succ a =>
+      cases i with
+      | zero => simp [jacobiEtas]
+      | succ i =>
+        have := ih (eta + m) a i (by simpa using h)
+        simp only [jacobiEtas, sc_hadd, List.getElem?_cons_succ, this]
+        have hm : min (i + 1 + 1) (a + 1) = min (i + 1) a + 1 := by omega
+        rw [hm, List.take_succ_cons, List.sum_cons]
+        congr 1; ring
+
+theorem etas_length (c : Coord) (m0 pj0m : K) (nact : Nat) (ms : List K) :
+    (etas c m0 pj0m nact ms).length = ms.length := by
+  cases c <;> simp [etas, jacobiEtas_length]
+
+theorem whds_get (m0 pj0m : K) (nact : Nat) (ms : List K) (i : Nat) (h : i < ms.length) :
+    (etas .whds m0 pj0m nact ms)[i]? = some (if i < nact then m0 + ms[i] else m0) := by
+  simp [etas, h]
+  
+end mass
+
+end RV.Kepler
+
+/-! ### bounded loops (any scalar type, including `Float`) -/
+namespace RV.Kepler
+section loops
+variable {K : Type} [KScalar K]
+
+theorem quartLoop_iters (c : Ctx K) : ∀ (rem : Nat) (X : K) (prev : List K) (gs : Cs3 K) (it mh : Nat)
+    (r : K × Cs3 K × Bool × Nat × Nat), quartLoop c rem X prev gs it mh = .ok r → r.2.2.2.1 ≤ it + rem := by
+  intro rem
+  induction rem with
+  | zero =>
+    intro X prev gs it mh r h
+    simp only [quartLoop, pure, Except.pure] at h
+    cases h; simp
+  | succ rem ih =>
+    intro X prev gs it mh r h
+    simp only [quartLoop, bind, Except.bind] at h
+    split at h
+    · cases h
+    · rename_i v hv
+      obtain ⟨gs', nh⟩ := v
+      simp only at h
+      split at h
+      · simp only [pure, Except.pure] at h; cases h; simp
+      · have := ih _ _ _ _ _ _ h; omega
+
+theorem newtLoop_iters (c : Ctx K) : ∀ (rem : Nat) (X oldX : K) (gs : Cs3 K) (ri : K) (it mh : Nat)
+    (r : K × Cs3 K × K × Bool × Nat × Nat), newtLoop c rem X oldX gs ri it mh = .ok r → r.2.2.2.2.1 ≤ it + rem := by
+  intro rem
+  induction rem with
+  | zero =>
+    intro X oldX gs ri it mh r h
+    simp only [newtLoop, pure, Except.pure] at h
+    cases h; simp
+  | succ rem ih =>
+    intro X oldX gs ri it mh r h
+    simp only [newtLoop, bind, Except.bind] at h
+    split at h
+    · cases h
+    · rename_i v hv
+      obtain ⟨gs', nh⟩ := v
+      simp only at h
+      split at h
+      · simp only [pure, Except.pure] at h; cases h; simp
+      · have := ih _ _ _ _ _ _ _ h; omega
+end loops
 end RV.Kepler
